@@ -254,7 +254,7 @@ macro_rules! dist_validate {
             let r = d.validate();
             let okf: fn(f64, f64, f64, u64) -> bool = $ok;
             if r.is_ok() {
-                assert!(okf(a, b, c, n), "C12: only distributions whose parameters are valid are accepted (NaN never accepted where a probability or scale is required)");
+                assert!(okf(a, b, c, n), "C12/C13: only distributions whose parameters are valid (and inside the bounds that keep sampling prompt) are accepted; NaN is never accepted where a probability or scale is required");
             }
             let cov: fn(f64, f64, f64, u64) -> bool = $cover;
             kani::cover!(r.is_ok() && cov(a, b, c, n), "accepted at a parameter corner");
